@@ -16,7 +16,7 @@ pub fn def() -> CheckDef {
         meta: CheckMeta {
             id: "C03",
             level: "exploration",
-            rule: "generated single-threaded step sequences over {open reader (<= 4 open), close reader j (any order), writer commit(ops), writer rollback(ops), reopen (only with no reader open)} with update/delete-heavy operations on a bounded key set at page size 1024, so pages are freed and reused at every commit. Each reader keeps the model clone taken when it began; after EVERY step every open reader is dumped in full and compared with its clone (a panic is a failure); commits are also checked with the independent parser. The file is pre-sized so that no commit grows it while a reader is open on the same thread (documented self-deadlock); cases that would come near the limit are discarded and counted. Non-trivial = a reader that stayed open across >= 2 commits of which at least one reused previously freed pages, while another reader of a different age was open. Distinct = hash of the case.",
+            rule: "generated single-threaded step sequences over {open reader (<= 4 open), close reader j (any order), writer commit(ops), writer rollback(ops), reopen (only with no reader open)} with update/delete-heavy operations on a bounded key set at page size 1024, so pages are freed and reused at every commit, and bursts that rewrite ~40 page-sized values so that the free set is drained and any page released too early is overwritten at once. Each reader keeps the model clone taken when it began; after EVERY step every open reader is dumped in full and compared with its clone (a panic is a failure); commits are also checked with the independent parser. The file is pre-sized so that no commit grows it while a reader is open on the same thread (documented self-deadlock); cases that would come near the limit are discarded and counted. Non-trivial = a reader that stayed open across >= 2 commits of which at least one reused previously freed pages, while another reader of a different age was open. Distinct = hash of the case.",
             assumptions: &[
                 "one thread holds several read transactions and at most one write transaction at a time; the writer never needs to grow the file (pre-sized), which is the documented precondition for doing this on one thread",
             ],
@@ -58,10 +58,17 @@ fn small_ops(max: usize) -> impl Strategy<Value = Vec<Op>> {
 }
 
 pub fn strategy(max_steps: usize, num_pages: usize) -> impl Strategy<Value = C03Case> {
+    // a burst rewrites ~40 page-sized values: it drains the free set, so that a page released too
+    // early is overwritten at once instead of sitting unused behind lower free page ids
+    let burst = (0u16..3, any::<u16>()).prop_map(|(slot, b)| Step::Write {
+        commit: true,
+        ops: vec![Op::PutRun { b, base: vec![b'z'], start: slot * 20, step: 1, n: 39, klen: 0, vlen: 1000 }],
+    });
     let step = prop_oneof![
         3 => Just(Step::OpenReader),
         2 => any::<u8>().prop_map(Step::CloseReader),
-        7 => small_ops(12).prop_map(|ops| Step::Write { commit: true, ops }),
+        3 => burst,
+        6 => small_ops(12).prop_map(|ops| Step::Write { commit: true, ops }),
         1 => small_ops(12).prop_map(|ops| Step::Write { commit: false, ops }),
         1 => Just(Step::Reopen),
     ];
